@@ -922,4 +922,92 @@ theorem parse_build_leafSizesOK (isAlnum : Char → Bool) (cs : List Char) (case
     leafSizesOK b.raw = true :=
   build_raw_leafSizesOK t.expr t.backrefs b hb (parse_leafSizesOK isAlnum cs casei t h)
 
+/-! ## The counterexample, and non-vacuity on concrete pattern strings (by evaluation) -/
+
+private def PS (s : String) : Res Tree := parseStr (fun c => c.isAlphanum) s.toList false
+
+/-- **counterexample to `parse_wellShaped`**: `(a)\g1` parses, to a tree with a subroutine call,
+    which is not `wellShaped` (its `parsedOK` and `leafSizesOK` hold, and `build` rejects it) -/
+theorem parse_wellShaped_counterexample :
+    parseStr (fun c => c.isAlphanum) "(a)\\g1".toList false =
+      .ok ⟨.concat [.group 0 (.literal ['a'] false), .subroutine 1], [1], []⟩ ∧
+    wellShaped (.concat [.group 0 (.literal ['a'] false), .subroutine 1]) = false ∧
+    build (.concat [.group 0 (.literal ['a'] false), .subroutine 1]) [1] =
+      .error .featureNotSupported :=
+  ⟨isTree_sound (by decide +kernel), by decide,
+    by simp [build, wrapTree, renumber, renumberList, checkRefs, checkRefsList]⟩
+
+/-- `(?<n>a|bc)(?=d)\k<n>{2,3}` as the parser returns it (with `\1` for `\k<n>` the parser answers
+    `CompileError::NamedBackrefOnly`: numbered back-references next to named groups) -/
+private def exTree : Expr :=
+  .concat [.group 0 (.alt [.literal ['a'] false,
+      .concat [.literal ['b'] false, .literal ['c'] false]]),
+    .look (.literal ['d'] false) .ahead,
+    .repeat (.backref 1) 2 (some 3) true]
+
+private theorem ex_parse : PS "(?<n>a|bc)(?=d)\\k<n>{2,3}" = .ok ⟨exTree, [1], [([110], 1)]⟩ :=
+  isTree_sound (by decide +kernel)
+
+/-- `[\d\x41-z]+\Z|(?i:é)` : class and escape `Delegate`s (size 1), the `\Z` look-ahead over a
+    `Delegate` of size 0, a two-byte literal -/
+private def exTree2 : Expr :=
+  .alt [.concat [.repeat (.delegate "[\\dA-z]".toList 1 false) 1 none true,
+      .look (.delegate ['\n', '*', '$'] 0 false) .ahead],
+    .literal ['é'] true]
+
+private theorem ex_parse2 : PS "[\\d\\x41-z]+\\Z|(?i:é)" = .ok ⟨exTree2, [], []⟩ :=
+  isTree_sound (by decide +kernel)
+
+set_option linter.unusedSimpArgs false in
+private theorem ex_build : ∃ b, build exTree [1] = .ok b := by
+  simp [build, exTree, wrapTree, renumber, renumberList, checkRefs, checkRefsList, isHard,
+    isHardAny, compile, visit, visitMiddle, visitAlt, visitAltBody, concatSplit, groupCount,
+    groupCountList, constSize, constSizeAll, minSize, minSizeMin, minSizeSum, allMinSize,
+    compileDelegates, compileDelegate, isLiteral, isLiteralAll, boundsEq, satMul, satAdd, sureReps,
+    UNSET, Assertion.isHard, wrapPosLook, posLookBodyPc, pushLiteral, pushLiteralAll]
+
+-- 1. `parse_parsedOK`, `parse_wellShaped_partial`, `parse_wellShaped_of_noSub`
+example : parsedOK exTree = true := parse_parsedOK _ _ _ _ ex_parse
+example : wellShaped exTree = noSub exTree := parse_wellShaped_partial _ _ _ _ ex_parse
+example : wellShaped exTree = true :=
+  parse_wellShaped_of_noSub _ _ _ ⟨exTree, [1], [([110], 1)]⟩ ex_parse (by decide)
+example : wellShaped exTree2 = true :=
+  parse_wellShaped_of_noSub _ _ _ ⟨exTree2, [], []⟩ ex_parse2 (by decide)
+-- on the counterexample the equation reads `false = false`
+example : wellShaped (.concat [.group 0 (.literal ['a'] false), .subroutine 1]) =
+    noSub (.concat [.group 0 (.literal ['a'] false), .subroutine 1]) :=
+  parse_wellShaped_partial _ _ _ ⟨_, [1], []⟩ parse_wellShaped_counterexample.1
+
+-- 2. `parse_leafSizesOK`
+example : leafSizesOK exTree = true := parse_leafSizesOK _ _ _ _ ex_parse
+example : leafSizesOK exTree2 = true := parse_leafSizesOK _ _ _ _ ex_parse2
+
+-- 3. `build_raw_eq`, `build_raw_wellShaped`, `build_raw_leafSizesOK`, `build_raw_noBareEndZ`,
+--    `parse_build_wellShaped`, `parse_build_leafSizesOK`: the tree builds, so the statements have
+--    a witness
+example : ∃ b, build exTree [1] = .ok b ∧
+    b.raw = .concat [.group 1 (.alt [.literal ['a'] false,
+        .concat [.literal ['b'] false, .literal ['c'] false]]),
+      .look (.literal ['d'] false) .ahead,
+      .repeat (.backref 1) 2 (some 3) true] ∧
+    wellShaped b.raw = true ∧ leafSizesOK b.raw = true ∧ noBareEndZ b.raw = true := by
+  obtain ⟨b, hb⟩ := ex_build
+  refine ⟨b, hb, ?_, build_raw_wellShaped _ _ b hb (by decide),
+    build_raw_leafSizesOK _ _ b hb (by decide), build_raw_noBareEndZ _ _ b hb (by decide)⟩
+  rw [(build_raw_eq _ _ b hb).1]
+  simp [exTree, renumber, renumberList]
+
+example : ∃ b, build exTree [1] = .ok b ∧ wellShaped exTree = true ∧ wellShaped b.raw = true ∧
+    leafSizesOK b.raw = true := by
+  obtain ⟨b, hb⟩ := ex_build
+  have h := parse_build_wellShaped _ _ _ ⟨exTree, [1], [([110], 1)]⟩ b ex_parse hb
+  exact ⟨b, hb, h.1, h.2,
+    parse_build_leafSizesOK _ _ _ ⟨exTree, [1], [([110], 1)]⟩ b ex_parse hb⟩
+
+-- `build_noSub` on the counterexample: it does not build
+example : ¬ ∃ b, build (.concat [.group 0 (.literal ['a'] false), .subroutine 1]) [1] = .ok b := by
+  rintro ⟨b, hb⟩
+  have := build_noSub _ _ b hb
+  simp [noSub, noSubAll] at this
+
 end Fancy.Parse
